@@ -75,6 +75,7 @@ type FileSpec struct {
 	PAX     bool   `json:"pax,omitempty"` // PAX header with access / change time
 	ATime   int    `json:"atime,omitempty"`
 	Owner   int    `json:"owner,omitempty"` // 0 numeric only, 1 root/root, 2 app/staff
+	Token   string `json:"token,omitempty"` // unique marker appended to the content (identifies the layer)
 }
 
 // LayerSpec is one layer.
@@ -110,6 +111,7 @@ type ImageSpec struct {
 	Volumes    []string    `json:"volumes,omitempty"`
 	ConfigData bool        `json:"config_data,omitempty"` // config descriptor carries inline data
 	UseBase    bool        `json:"use_base,omitempty"`    // layers/history start with the (old) base image
+	Pretty     bool        `json:"pretty,omitempty"`      // config and manifest are indented JSON (not regclient's canonical form)
 }
 
 // BaseSpec describes the old and the new base image (always on registry host A, repo lib/base).
@@ -156,6 +158,7 @@ type Case struct {
 	Images      []ImageSpec `json:"images"`
 	Index       string      `json:"index"` // "" single image | oci | docker
 	IndexAnnots [][2]string `json:"index_annots,omitempty"`
+	IndexPretty bool        `json:"index_pretty,omitempty"`
 	ChildData   bool        `json:"child_data,omitempty"` // index entries carry inline data
 	Attest      bool        `json:"attest,omitempty"`     // index has a docker-reference attestation entry for image 0
 	Referrers   []RefSpec   `json:"referrers,omitempty"`
@@ -223,6 +226,14 @@ func genFiles(t *rapid.T, label string, allowInner bool) []FileSpec {
 		out = append(out, f)
 	}
 	sort.SliceStable(out, func(i, j int) bool { return out[i].Name < out[j].Name })
+	// the first regular file carries a token that is unique to this generated layer, so that
+	// no rewriting of another layer can ever produce this layer's content
+	for i := range out {
+		if out[i].Type == "f" {
+			out[i].Token = "#" + label
+			break
+		}
+	}
 	return out
 }
 
@@ -310,6 +321,7 @@ func genImage(t *rapid.T, label, family, arch string, hasBase bool) ImageSpec {
 	im.Ports = subsetStr(t, portPool, label+"_port")
 	im.Volumes = subsetStr(t, volPool, label+"_vol")
 	im.ConfigData = rapid.IntRange(0, 9).Draw(t, label+"_cfgdata") == 0
+	im.Pretty = rapid.Bool().Draw(t, label+"_pretty")
 	if hasBase {
 		im.UseBase = rapid.IntRange(0, 9).Draw(t, label+"_usebase") != 0
 	}
@@ -378,6 +390,7 @@ func gen(t *rapid.T) Case {
 			c.IndexAnnots = subsetPairs(t, annotPool, "idxann")
 		}
 		c.ChildData = rapid.IntRange(0, 39).Draw(t, "childdata") == 0
+		c.IndexPretty = rapid.Bool().Draw(t, "indexpretty")
 		c.Attest = rapid.IntRange(0, 4).Draw(t, "attest") == 0
 	}
 	for i, n := 0, rapid.SampledFrom([]int{0, 0, 0, 1, 1, 2}).Draw(t, "nref"); i < n; i++ {
